@@ -153,6 +153,12 @@ func monRawServer(prop string) Monitor {
 				if termOK {
 					add("C16", "wrong_message_count_accepted", term.End, "rpc %d (%s, %s): the caller of a non-streaming response got success", ex.Tag, sp.Shape, ex.Why)
 				}
+				// ... and never later either: once the call has failed, a further Recv must not hand over a left-over response
+				for _, o := range tr.Ops {
+					if o.RPC == ex.Tag && o.Side == "caller" && o.Kind == "recv_again" && !o.Pending() && o.Code == CodeNil {
+						add("C16", "wrong_message_count_accepted", o.End, "rpc %d (%s, %s): after the call had failed with code %d, a further Recv returned a message with a nil error", ex.Tag, sp.Shape, ex.Why, term.Code)
+					}
+				}
 			}
 		}
 		return vs
